@@ -462,6 +462,18 @@ func (x *c10hrun) poolEmptied(b int, send func(i int, what string, tx *types.Tra
 	if x.scriptDone || b < 3 {
 		return
 	}
+	pool := x.xaddrs[0]
+	if !n.App.ValidatorsCache.IsOnlineIdentity(pool) {
+		// the pool (an address without identity) switches itself online first
+		if !n.App.State.HasStatusSwitchAddresses(pool) && len(n.Pool.GetPendingByAddress(pool)) == 0 {
+			if err := n.Pool.AddExternalTxs(validation.InboundTx, x.signExtra(0, chainfx.OnlineTx(true))); err == nil {
+				x.c.Hit("offer-ok:script:identityless-pool-online")
+			} else {
+				x.c.Hit("offer-rej:script:identityless-pool-online:" + err.Error())
+			}
+		}
+		return
+	}
 	next := n.Chain.Head.Height() + 1
 	if next%3 != 1 {
 		return
@@ -875,8 +887,6 @@ func c10hRun(c *hx.Ctx, cs c10hcase) error {
 				app.State.SetDelegationEpoch(w.Addrs[d], 0)
 				app.IdentityState.SetDelegatee(w.Addrs[d], scriptPool)
 			}
-			app.IdentityState.SetOnline(scriptPool, true)
-			app.IdentityState.SetOnline(w.Addrs[0], true) // the proposer: with somebody online the god address has no privilege
 		}
 	}
 	h, err := chainfx.Bootstrap(w, c10hOpts(cs), r, true)
@@ -1091,7 +1101,7 @@ func init() {
 			}
 			switch i % 11 {
 			case 7, 8, 9, 10:
-				cs.Script, cs.Users, cs.Blocks, cs.Variant = "pool-emptied", 10, 16, i%11-7
+				cs.Script, cs.Users, cs.Blocks, cs.Variant = "pool-emptied", 10, 22, i%11-7
 			case 5, 6:
 				// both kill-invitee variants and one of the other two within one quick run
 				cs.Script, cs.Users, cs.Blocks = "invitee-pool", 10, 45
